@@ -215,7 +215,7 @@ def obligations(tier, seed):
   CHECK(r.f0 != 0 || (SPECP_spowfits(base, exp) && r.f1 == SPEC_spow(base, exp)), "OK-means-the-power-fits-and-value-is-exactly-base-to-the-exp");
   CHECK(r.f0 != 3 || !SPECP_spowfits(base, exp), "CANNOT_FIT-is-answered-only-when-the-power-exceeds-the-type");
 """ % CL.cps_init.inst(b0='base', e0='exp'),
-                  kind='L', promote=False, wrap=True, budget=300, defs=('LL2C_UF_ARITH=1', 'LL2C_UF_DIV=1'), needs=('C11.lemmas.checked_int_pow_signed',),
+                  kind='L', promote=False, wrap=True, budget=300, defs=('LL2C_UF_ARITH=1', 'LL2C_UF_DIV=1', 'LL2C_UF_SMUL=1'), needs=('C11.lemmas.checked_int_pow_signed',),
                   dfcc=dict(target=tgts,
                             native_search=dict(pre='(int64_t)base >= 1', call='au::detail::checked_int_pow<int64_t>((int64_t)base, exp)', ret='auto',
                                                post='ref_oks((int64_t)base, exp, (int)r.outcome, r.value)',
